@@ -49,6 +49,8 @@ class NumOps (N : Type) where
   parse : Str → Option N
   /-- Excel's General number → text conversion (Spec only) -/
   fmtGeneral : N → Str
+  /-- `math.MaxFloat64` (sentinel of MIN / MAX) -/
+  maxFloat : N
 
 open NumOps
 
@@ -271,6 +273,75 @@ def argToTok : CellArg N → Tok
   | .str s => .text s
   | .err m => .text m
   | .empty => .text []
+
+
+/-! ### the seven aggregates over the elements of range arguments
+
+`cells` are the elements of the matrices `rangeResolver` builds for the range arguments, in
+argument order, row-major: `cellResolver`'s result per cell (a formula cell whose evaluation
+fails is `empty`).  Transcription of the `ArgMatrix` branches of SUM, AVERAGE (`countSum`),
+COUNT, COUNTA, MAX/MIN (`calcListMatrixMax/Min`, sentinel ∓MaxFloat64) and PRODUCT. -/
+
+inductive AggFn where
+  | sum | average | count | counta | min | max | product
+  deriving DecidableEq, Repr
+
+def sumStep (s : N) : CellArg N → N
+  | .num x _ => if isNaN x then s else add s x
+  | .str t => match parse t with
+    | some y => if isNaN y then s else add s y
+    | none => s
+  | .err _ => add s zero
+  | .empty => add s zero
+
+/-- `countSum(false, …)` on one element: (count, sum) -/
+def avgStep (cs : N × N) : CellArg N → N × N
+  | .num x false => (add cs.1 one, add cs.2 x)
+  | .num _ true => cs
+  | .str t =>
+    if t = sTRUE ∨ t = sFALSE then cs
+    else match parse t with
+      | some y => if isNaN y then cs else (add cs.1 one, add cs.2 y)
+      | none => cs
+  | _ => cs
+
+def countStep (n : Nat) : CellArg N → Nat
+  | .num _ _ => n + 1
+  | _ => n
+
+def countaStep (n : Nat) : CellArg N → Nat
+  | .num _ _ => n + 1
+  | .str t => if t = [] then n else n + 1
+  | _ => n
+
+def maxStep (m : N) : CellArg N → N
+  | .num x b => if lt m x then (if b then m else x) else m
+  | _ => m
+
+def minStep (m : N) : CellArg N → N
+  | .num x b => if lt x m then (if b then m else x) else m
+  | _ => m
+
+def productStep (p : N) : CellArg N → N
+  | .num x _ => mul p x
+  | _ => p
+
+def aggregate (fn : AggFn) (cells : List (CellArg N)) : Except MErr (Arg N) :=
+  match fn with
+  | .sum => pure (mkNum (cells.foldl sumStep zero))
+  | .average =>
+    let cs := cells.foldl avgStep (zero, zero)
+    if isZero cs.1 then .error (.msg (.lit formulaErrorDIV)) else pure (mkNum (div cs.2 cs.1))
+  | .count => pure (mkNum (ofNat (cells.foldl countStep 0)))
+  | .counta => pure (mkNum (ofNat (cells.foldl countaStep 0)))
+  | .max =>
+    let m0 : N := sub zero maxFloat
+    let m := cells.foldl maxStep m0
+    pure (mkNum (if eq m m0 then zero else m))
+  | .min =>
+    let m := cells.foldl minStep maxFloat
+    pure (mkNum (if eq m maxFloat then zero else m))
+  | .product => pure (mkNum (cells.foldl productStep one))
 
 abbrev State (N : Type) := List (Arg N) × List Tok   -- (opdStack, optStack), tops first
 
@@ -583,6 +654,54 @@ def eval (env : Str → Option (Val N)) : Expr → Val N
   | .pct e => pct (eval env e)
   | .bin op l r => binop op (eval env l) (eval env r)
   | .paren e => eval env e
+
+
+/-! ### aggregates: Excel's folds over the cells of range arguments -/
+
+/-- the numbers among the referenced cells (text, booleans and blanks inside a range are ignored) -/
+def numbers : List (Val N) → List N
+  | [] => []
+  | .num x :: rest => x :: numbers rest
+  | _ :: rest => numbers rest
+
+def firstErr : List (Val N) → Option ErrCode
+  | [] => none
+  | .err c :: _ => some c
+  | _ :: rest => firstErr rest
+
+def nonBlank : List (Val N) → Nat
+  | [] => 0
+  | .blank :: rest => nonBlank rest
+  | _ :: rest => nonBlank rest + 1
+
+def maxOf (x : N) (xs : List N) : N := xs.foldl (fun m y => if lt m y then y else m) x
+def minOf (x : N) (xs : List N) : N := xs.foldl (fun m y => if lt y m then y else m) x
+
+def aggregate (fn : Impl.AggFn) (cells : List (Val N)) : Val N :=
+  let ns := numbers cells
+  match fn with
+  | .count => .num (ofNat ns.length)
+  | .counta => .num (ofNat (nonBlank cells))
+  | fn =>
+    match firstErr cells with
+    | some c => .err c
+    | none =>
+      match fn with
+      | .sum => mkNum (ns.foldl add zero)
+      | .average =>
+        match ns with
+        | [] => .err .div0
+        | _ => mkNum (div (ns.foldl add zero) (ns.foldl (fun c _ => add c one) zero))
+      | .max => match ns with
+        | [] => .num zero
+        | x :: xs => .num (maxOf x xs)
+      | .min => match ns with
+        | [] => .num zero
+        | x :: xs => .num (minOf x xs)
+      | .product => match ns with
+        | [] => .num zero
+        | _ => mkNum (ns.foldl mul one)
+      | _ => .num zero
 
 /-- a formula whose value is a blank reference shows 0 -/
 def top : Val N → Val N
